@@ -117,6 +117,7 @@ class ToySimulation(Simulation):
 
     def load_program(self, program: str):
         self.state = ToyArchitecturalState(unified_memory_size=self.unified_memory_size)
+        self.next_cycle = 1
         parser = ToyParser()
         parser.parse(program=program, state=self.state)
 
